@@ -53,6 +53,18 @@ def generate(prop, seed, tier):
             break
     else:
         raise Discard('no derivation found')
+    if g.random() < 0.04:
+        # one large range domain: node values beyond CPython's small-int cache, so that equal values handed to different rule
+        # instances are different objects (as they are when they come out of a JSON document or of arithmetic)
+        nl = g.choice(sorted(spec['domains']))
+        if all(len(t['type']) <= 2 for t in spec['terms'].values() if nl in t['type']):
+            spec['domains'][nl] = {'kind': 'range', 'size': g.randrange(258, 330)}
+            for t in spec['terms'].values():
+                if nl in t['type']:
+                    shape = G.sizes_of(spec, t['type'])
+                    base = [round(0.2 + 0.7 * g.random(), 3) for _ in range(7)]
+                    t['weights'] = G.nested([base[i % 7] for i in range(G.numel(shape))], list(shape))
+                    t.pop('pattern', None)
     n = GR.tree_size(tree)
     kinds = ['dfs', 'bfs', 'rev', 'rand', 'rand', 'rand']
     g.shuffle(kinds)
@@ -361,7 +373,8 @@ def check_derive(F, case, B, model_nodes_labels, counters, log):
             rep = find((pos, idx))
             label[rep] = v['label']
             if rep not in value:
-                value[rep] = g.randrange(G.dom_size(spec['domains'][v['label']])) if G.dom_size(spec['domains'][v['label']]) else None
+                dsz = G.dom_size(spec['domains'][v['label']])
+                value[rep] = (g.randrange(257, dsz) if dsz > 257 and g.random() < 0.8 else g.randrange(dsz)) if dsz else None
     if any(v is None for v in value.values()):
         return
     m_edges = []
@@ -392,7 +405,10 @@ def check_derive(F, case, B, model_nodes_labels, counters, log):
     def mk1(pos, sub):
         ri = sub[0]
         r = spec['rules'][ri]
-        asst = {B.nodes[(ri, idx)]: value[find((pos, idx))] for idx in range(len(r['nodes']))}
+        # every rule instance gets its own value objects (equal, not identical, beyond the small-int cache)
+        asst = {B.nodes[(ri, idx)]: int(str(value[find((pos, idx))])) for idx in range(len(r['nodes']))}
+        if any(v_ > 256 for v_ in asst.values()):
+            counters.inc('probe.derive-values-beyond-small-int-cache')
         pairs = [(B.edges[(ri, ei)], mk(pos + (j,), sub[1][j])) for j, ei in enumerate(GR.nt_edges(spec, r))]
         g.shuffle(pairs)        # the children mapping is keyed by edge; its insertion order is the caller's business
         kids = dict(pairs)
